@@ -541,3 +541,106 @@ func checkLazyLoad(c *core.Ctx, rule string) {
 	}
 	c.Floor(rule, n, 4, "accesses to lazily loaded module tables outside their loaders")
 }
+
+// ---------------------------------------------------------------- C09.persist
+
+// checkPersistAll — a module's Commit writes a dirty record under its key. If that write is
+// made conditional on the *value* (write the accumulated reward only when it is positive, "a
+// missing key reads as zero anyway"), a value that went back to its zero state is not written
+// and the key keeps the previous value: the running node is unaffected, a restarted one loads
+// the stale value (the period's rewards are paid twice). Decided for every tree write in the
+// Commit methods of the state modules: no condition on the way to the write reads the amount
+// that is being written — unless its other outcome removes the key.
+func checkPersistAll(c *core.Ctx, rule string) {
+	n := 0
+	amountSources := func(v ssa.Value) map[string]bool {
+		out := map[string]bool{}
+		core.DependsOn(v, func(y ssa.Value) bool {
+			if !isBigPtr(y.Type()) {
+				return false
+			}
+			switch x := y.(type) {
+			case *ssa.Call:
+				if sc := x.Call.StaticCallee(); sc != nil && sc.Signature.Recv() != nil && len(x.Call.Args) > 0 && !strings.Contains(core.CalleeName(&x.Call), "math/big") {
+					out[sc.String()+"@"+core.Unwrap(x.Call.Args[0]).Name()] = true
+				}
+			case *ssa.UnOp:
+				if fa, ok := x.X.(*ssa.FieldAddr); ok {
+					out["field:"+fieldNameOf(fa)+"@"+core.Unwrap(fa.X).Name()] = true
+				}
+			}
+			return false
+		})
+		return out
+	}
+	for _, fn := range c.AllFns {
+		if fn.Name() != "Commit" || fn.Blocks == nil || !strings.HasPrefix(core.PkgOf(fn), core.PkgState+"/") || legacyV1(fn) {
+			continue
+		}
+		group := append([]*ssa.Function{fn}, c.Helpers(fn)...)
+		for _, g := range group {
+			k := 0
+			for _, s := range core.Sites(g) {
+				if !strings.HasSuffix(s.Callee, "iavl.MutableTree).Set") || len(s.Common.Args) < 3 {
+					continue
+				}
+				n++
+				k++
+				val := s.Common.Args[2]
+				srcs := amountSources(val)
+				bad := ""
+				for _, gt := range core.GatesBefore(s.Instr) {
+					shared := ""
+					for src := range amountSources(gt.If.Cond) {
+						if srcs[src] {
+							shared = src
+						}
+					}
+					if shared == "" {
+						continue
+					}
+					// the other outcome must remove the key
+					other := gt.If.Block().Succs[1]
+					if !gt.PassTrue {
+						other = gt.If.Block().Succs[0]
+					}
+					removes := false
+					// (within the same iteration when the write sits in a loop over the records)
+					avoid := map[*ssa.BasicBlock]bool{s.Block(): true}
+					var loop map[*ssa.BasicBlock]bool
+					if core.InCycle(s.Block()) {
+						loop = map[*ssa.BasicBlock]bool{s.Block(): true}
+						for x := range core.ReachFrom(s.Block(), nil) {
+							if core.ReachFrom(x, nil)[s.Block()] {
+								loop[x] = true
+							}
+						}
+						for x := range loop {
+							for _, pr := range x.Preds {
+								if !loop[pr] {
+									avoid[x] = true
+								}
+							}
+						}
+					}
+					for blk := range core.ReachFrom(other, avoid) {
+						if loop != nil && !loop[blk] {
+							continue
+						}
+						for _, in := range blk.Instrs {
+							if call, ok := in.(*ssa.Call); ok && strings.HasSuffix(core.CalleeName(&call.Call), "iavl.MutableTree).Remove") {
+								removes = true
+							}
+						}
+					}
+					if !removes {
+						bad = c.PosStr(gt.If.Cond.Pos())
+					}
+				}
+				c.Check(bad == "", rule, fmt.Sprintf("%s/Set#%d", core.ShortFn(g), k), s.Pos(), "the record is written whatever its value (or the key is removed)",
+					"this tree write is skipped depending on the very amount it writes (condition at "+bad+") and the key is not removed instead: when the amount returns to the skipped state the tree keeps the old value — a restarted node loads it")
+			}
+		}
+	}
+	c.Floor(rule, n, 20, "tree writes in the Commit methods of the state modules")
+}
